@@ -27,6 +27,7 @@ type caseGen struct {
 	idx     []idxSpec
 	tagOf   func(id string) string
 	faultPr int // chance (out of 12) that a mutation carries a fault
+	rebuildPr int // extra chance (out of 100) of a rebuild
 	n       int
 }
 
@@ -69,6 +70,28 @@ func (g *caseGen) observe(pages int) {
 	}
 }
 
+// foreignBucket: somebody else creates a nested bucket where the store keeps (or will keep) a key: on an index
+// entry, inside an index directory, on a data key, or elsewhere.
+func (g *caseGen) foreignBucket(prefix string) {
+	ix := kit.Pick(g.r, g.idx)
+	id := kit.Pick(g.r, g.ids)
+	var key string
+	switch g.r.Intn(5) {
+	case 0:
+		key = "/" + prefix + "/indexes/" + ix.name + "/" + id
+	case 1:
+		key = "/" + prefix + "/indexes/" + ix.name + "/" + kit.Pick(g.r, g.grps) + "/" + id
+	case 2:
+		key = "/" + prefix + "/indexes/" + ix.name + "/zz~nested"
+	case 3:
+		key = "/" + prefix + "/data/" + id
+	default:
+		key = "/" + prefix + "/other"
+	}
+	g.add("mkbucket %s", kit.Esc(key))
+	g.add("dump")
+}
+
 func (g *caseGen) fault() string {
 	if g.r.Intn(12) >= g.faultPr {
 		return "-"
@@ -84,6 +107,10 @@ func (g *caseGen) mutation() {
 	grp := kit.Pick(g.r, g.grps)
 	g.n++
 	data := fmt.Sprintf("d%d", g.n)
+	if g.r.Intn(100) < g.rebuildPr {
+		g.add("rebuild %s", g.fault())
+		return
+	}
 	switch k := g.r.Intn(100); {
 	case k < 28:
 		g.add("create %s %s %s %s %s", kit.Esc(id), kit.Esc(grp), kit.Esc(g.tagOf(id)), data, g.fault())
@@ -116,6 +143,9 @@ func pickN(r *kit.Rand, pool []string, n int) []string {
 func genCase(r *kit.Rand, i int) []string {
 	g := &caseGen{r: r, faultPr: 2}
 	class := i % 10
+	if i%20 == 11 {
+		class = 10 // foreign nested buckets in the same Bolt bucket (bolt.go delete/list/put on a bucket key)
+	}
 	g.ids = pickN(r, wfIDs, r.Range(3, 5))
 	if r.Chance(1, 2) {
 		// make sure ids that are prefixes of each other are present
@@ -148,16 +178,20 @@ func genCase(r *kit.Rand, i int) []string {
 	if i%7 == 3 {
 		g.faultPr = 6
 	}
+	if class == 10 {
+		g.rebuildPr = 15
+	}
 	g.cfgLine(prefix)
 	size := r.Range(3, 12)
 	if i%10 == 0 {
 		size = r.Range(12, 30)
 	}
 	for k := 0; k < size; k++ {
-		g.mutation()
-		if r.Chance(1, 3) {
-			g.add("reopen")
+		if class == 10 && r.Chance(1, 3) {
+			g.foreignBucket(prefix)
 		}
+		g.mutation()
+		g.add("reopen") // the Bolt file is closed and reopened after EVERY operation
 		g.observe(r.Range(1, 3))
 	}
 	g.add("rebuild -")
@@ -225,9 +259,7 @@ func faultSweep(out *kit.Out, e *env, r *kit.Rand, bases int, caseNo *int) {
 		for _, f := range []string{"w0", "w1", "w2", "w3", "w4", "w5", "w6", "c"} {
 			g.ops = append([]string(nil), setup...)
 			g.add("%s %s", last, f)
-			if r.Chance(1, 2) {
-				g.add("reopen")
-			}
+			g.add("reopen")
 			g.observe(1)
 			emit(out, fmt.Sprintf("f%d", *caseNo), execCase(e, g.ops))
 			*caseNo++
